@@ -124,8 +124,26 @@ func (c *ctx) dot() {
 		}
 	}
 	if useNA {
-		for i := 0; i < n; i++ {
-			nodeAttrs = append(nodeAttrs, c.drawAttrs(3))
+		if c.g.Chance(1, 3) {
+			// the caller serves every node from one shared attribute table: prefixes
+			// of different lengths over one backing array (spare capacity behind each)
+			table := c.drawAttrs(3)
+			for len(table) < 3 {
+				table = append(table, graphout.DotAttr{Name: []string{"penwidth", "fontsize", "peripheries"}[len(table)], Val: len(table) + 1})
+			}
+			for k := range table {
+				if table[k].Name == "label" {
+					table[k].Name = "xlabel"
+				}
+			}
+			for i := 0; i < n; i++ {
+				nodeAttrs = append(nodeAttrs, table[:c.g.Range(0, 2)])
+			}
+			c.probe("dot_node_attrs_from_shared_table")
+		} else {
+			for i := 0; i < n; i++ {
+				nodeAttrs = append(nodeAttrs, c.drawAttrs(3))
+			}
 		}
 	}
 	if useEA {
